@@ -230,9 +230,18 @@ def runOuter (env : T) (run : String â†’ Elem â†’ Outcome Val) (conv : String â†
   -- newtype receivers proxy to the inner type's own element-level impl
   match r.base.data with
   | .struct .tuple [f] =>
-      (match f.ty with
-       | .recv inner => (run inner el).map (fun v => .record r.base.ident [("0", v)])
-       | _ => .err (Err.custom "unsupported newtype inner"))
+      -- the receiver's own `supports(..)` is enforced before the inner type is asked
+      -- (`FromDeriveInputImpl::to_tokens`, newtype arm: `__validate_body(&input.data)?`)
+      let validate : Outcome Unit := match r.trait_, el, r.supports with
+        | .fromDeriveInput, .deriveInput d, some diss => diss.validateBody d.body.shape
+        | _, _, _ => .ok ()
+      (match validate with
+       | .err e => .err e
+       | .panic m => .panic m
+       | .ok () =>
+          match f.ty with
+          | .recv inner => (run inner el).map (fun v => .record r.base.ident [("0", v)])
+          | _ => .err (Err.custom "unsupported newtype inner"))
   | .struct _ fields =>
       let st := semStruct env (recvHooks env) r.base fields (fun kvs => .record r.base.ident (sortKvs kvs))
       let attrsField : Option (List Attr â†’ Outcome Val) := r.attrsField.map (fun fw =>
